@@ -112,9 +112,14 @@ def recvStepCore (st : RecvState) (ts : List String) : RecvState × List String 
         let pm := persistMeta s.σ
         let (ps, _, w) := persist s.σ
         let out1 := sortLines (delta s.σ.w w) ++ [showStack w.host.stack, "pm " ++ showMeta pm, "ps " ++ showSpans ps]
-        let pm' : PersistedMeta := pm.map fun kv => (kv.1, { kv.2 with name := kv.2.name ++ suffix })
+        -- (re-interned in ascending id order: the harness does the same before it builds the receiver)
+        let pmSorted := (pm.toArray.qsort (fun a b => a.1 < b.1)).toList
+        let pm' : PersistedMeta := pmSorted.map fun kv => (kv.1, { kv.2 with name := kv.2.name ++ suffix })
         let σ' := restore pm' ps [] w
-        ({ st with sys := { σ := σ', lastPm := pm', lastPs := ps } }, out1 ++ delta w σ'.w)
+        -- the receiver is built before the host is installed: the registrations of the new
+        -- descriptions go to whatever subscriber is current then, not to the host
+        ({ st with sys := { σ := σ', lastPm := pm', lastPs := ps } },
+          out1 ++ (delta w σ'.w).filter fun l => !l.startsWith "c reg ")
       else (st, ["bad-op"])
     | some m =>
       let pm := persistMeta s.σ
